@@ -28,6 +28,7 @@ def run(F, R, ctx):
         parked_published_rule(F, R)
         registry_rule(F, R)
         stoppers_serialised_rule(F, R)
+        no_foreign_lock_across_stop_rule(F, R)
     queue_guard_rule(F, R)
 
 
@@ -470,3 +471,86 @@ def queue_guard_rule(F, R):
                                 " -> ".join(lib.short_name(x) for x in bad[1]))),
                    fn.loc(bad[0].get("line")) if bad else "", sample=True)
     R.floor("C16.g", "entry guards of the merge-queue maps", n, 3)
+
+
+ANY_GUARD = re.compile(r"^(Arc)?(Mutex|RwLockRead|RwLockWrite|MappedMutex|MappedRwLockRead|MappedRwLockWrite)Guard<(.*)>$")
+
+
+def _guards_alive_at(fn, site):
+    """[(lock type, local)] of lock guards that are alive across call block `site`: acquired by a call that dominates the site,
+    dropped (drop terminator) on a path after it, and not released in between"""
+    dom = fn.dominators()
+    if site not in dom:
+        return []
+    out = []
+    after_site = fn.reachable_from(fn.succ(site))
+    for d, b in enumerate(fn.blocks):
+        if b["k"] != "drop" or b["c"] or d not in after_site:
+            continue
+        m = ANY_GUARD.match(b.get("ty") or "")
+        if not m:
+            continue
+        inner = re.sub(r"^(RawMutex|RawRwLock),", "", m.group(3))
+        g = b["place"]
+        src = lib.alias_sources(fn, g)
+        for c, cb in fn.calls():
+            if c == site or c not in dom[site] or not (cb["dest"] == g or cb["dest"] in src):
+                continue
+            alias = {g, cb["dest"]}
+            for _ in range(3):
+                for _, _, e in fn.events("mv"):
+                    if e[2] in alias and re.match(r"^_\d+$", e[1]):
+                        alias.add(e[1])
+            released = False
+            for i in fn.reachable_from(fn.succ(c)):
+                blk = fn.blocks[i]
+                gone = (blk["k"] == "drop" and blk.get("place") in alias) or \
+                       (blk["k"] == "call" and re.search(r"mem::drop$", blk["callee"]) and any(a in alias for a in blk["args"]))
+                if gone and (i == site or site in fn.reachable_from(fn.succ(i))):
+                    released = True
+                    break
+            if not released:
+                out.append((inner, g))
+                break
+    return out
+
+
+def no_foreign_lock_across_stop_rule(F, R):
+    R.rule("C16.h", "a thread that stops the world holds no other lock than the heap's: at every call through which "
+                    "Synchronizer::stop_threads is reached (with_locked_env and its callers), the lock guards alive across the call "
+                    "guard a `Heap`. A script thread blocked on any other lock (the compiler's RwLock in eval / thread start-up / "
+                    "span lookups, …) waits outside a safepoint and never publishes itself, and the stopper, holding that lock, "
+                    "waits for it in call_per_ctx forever")
+    stop_rx = re.compile(r"\{impl Synchronizer\}::stop_threads$")
+    through = {n for n in F.fns if stop_rx.search(n)}
+    work = list(through)
+    sites = []
+    callers = {}
+    for n, fn in F.fns.items():
+        if n.startswith("steel::"):
+            for i, b in fn.calls():
+                callers.setdefault(b["callee"], []).append((fn, i))
+    depth = {n: 0 for n in through}
+    while work:
+        g = work.pop()
+        for fn, site in callers.get(g, []):
+            sites.append((fn, site, g))
+            if fn.name not in through and depth[g] < 2:
+                through.add(fn.name)
+                depth[fn.name] = depth[g] + 1
+                work.append(fn.name)
+    n = 0
+    seen = set()
+    for fn, site, g in sorted(sites, key=lambda t: (t[0].name, t[1])):
+        if (fn.name, g) in seen:
+            continue
+        seen.add((fn.name, g))
+        n += 1
+        foreign = [(t, l) for t, l in _guards_alive_at(fn, site) if not re.search(r"\bHeap$", t)]
+        R.inst("C16.h", "%s holds only the heap lock across %s" % (fn.short(), lib.short_name(g)), not foreign,
+               foreign and ("%s calls %s (line %s), which stops the world, while a guard of the lock on `%s` is alive: every other "
+                            "thread that takes that lock does so outside a safepoint (eval, thread start-up, syntax helpers), blocks "
+                            "unpublished, and is waited for forever by this thread — the evaluation never completes" % (
+                                fn.short(), lib.short_name(g), fn.blocks[site].get("line"), foreign[0][0])),
+               fn.loc(fn.blocks[site].get("line")), sample=True)
+    R.floor("C16.h", "call sites through which the world is stopped", n, 8)
